@@ -18,7 +18,7 @@ QUERIES = ("unparse", "check_safety", "trace", "summaries", "dumps", "reparse")
 # finer-grained read-only queries: each summary accessor on its own (an accessor may answer differently
 # depending on which cache another accessor has already filled)
 FINE = ("unparse", "check_safety", "trace", "has_import", "has_call", "has_non_setstate_call", "unsafe_imports",
-        "non_standard_imports", "properties", "dumps", "reparse")
+        "non_standard_imports", "properties", "dumps", "reparse", "own_interpreter")
 
 
 def ask(p, q):
@@ -55,6 +55,9 @@ def ask(p, q):
         pr = p.properties
         return (tuple(ast.unparse(n) for n in pr.imports), len(pr.calls), len(pr.non_setstate_calls),
                 tuple(sorted(pr.likely_safe_imports))), p
+    if q == "own_interpreter":
+        # what the CLI does for the members of a stack: an interpreter with its own variable numbering and result name
+        return ast.unparse(fk.Interpreter(p, first_variable_id=7, result_variable="result1").to_ast()), p
     if q == "dumps":
         return p.dumps(), p
     if q == "reparse":
@@ -245,7 +248,15 @@ def ordered_programs():
 
     ms = macros()
     progs = [[m] for m in ms] + [[a, b] for a in ms for b in ms if a is not b]
-    return [asm_syms(pr) for pr in progs]
+    out = [asm_syms(pr) for pr in progs]
+    # constants that compare equal but are different values, each in a pickle of its own (a process-wide cache keyed by
+    # equality hands the first one seen to all the others)
+    import pickle
+
+    for v in (0.0, -0.0, 1.0, True, 1, False, 0, (0.0, 1), (-0.0, True), [1.0], [True], [1]):
+        for proto in (1, 2):
+            out.append(pickle.dumps(v, protocol=proto))
+    return out
 
 
 def child_main(depth, path, corpus_path=None, reverse=False):
@@ -258,10 +269,7 @@ def child_main(depth, path, corpus_path=None, reverse=False):
     totalm, _ = e1.run(cfgm, None)
     table.update(totalm.table)
     items = [(t, bytes.fromhex(h)) for t, h in json.load(open(corpus_path))] if corpus_path else []
-    for tag, data in items:
-        o = e1.Out()
-        digest_oracle(e1.Term(_Cfg({}), (tag,), data), o)
-        table.update(o.table)
+    # in this process itself, one after the other (the pools above run in forked workers): forwards or backwards
     seq = ordered_programs()
     if reverse:
         items = items[::-1]
